@@ -550,3 +550,52 @@ def r11(ctx):
 
 
 RULES.append(("C10.R11", "T8/T3", "the buffered event is the value being set; class selections report in the configured event variation", r11))
+
+
+def r12(ctx):
+    """'flags ... arrive as set': (a) for the point types without state bits the wire flag octet IS the point's flag octet
+    (`self.flags.value`, nothing masked), and AnalogConversions::get_flags hands the conversions the point's own flags; (b) a
+    binary-type static value stays in its packed (flag-less) variation only when its flags are EXACTLY online (an equality test, not
+    a subset test); (c) events appended to an open relative-time header are measured from the common time that was transmitted -
+    HeaderState::increment keeps `cto`."""
+    prog = ctx.prog
+    n = 0
+    for bd in prog.bodies.values():
+        m = re.search(r"<impl dnp3::app::measurement::WireFlags for dnp3::app::measurement::(\w+)>::get_wire_flags$", bd.path)
+        if not m or m.group(1) in ("BinaryInput", "DoubleBitBinaryInput", "BinaryOutputStatus"):
+            continue
+        n += 1
+        rs = [e for _, _, _, e in ret_sites(bd, ctx.sym(bd))]
+        ok = len(rs) == 1 and rs[0] == ("field", ("field", ("param", "self"), "flags"), "value")
+        ctx.check(ok, "wire-flags:%s" % m.group(1), "%s wire flags = self.flags.value" % m.group(1), bd.where(line=bd.line), bad_detail="%s::get_wire_flags returns %s: bits of the point's flag octet are changed on their way to the wire" % (m.group(1), expr_str(rs[0])[:70] if rs else "?"))
+    if n < 4:  # Counter, FrozenCounter, AnalogInput, AnalogOutputStatus
+        raise AnchorError("plain get_wire_flags impls: %d" % n)
+    k = 0
+    for bd in prog.bodies.values():
+        m = re.search(r"AnalogConversions for dnp3::app::measurement::(\w+)>::get_flags$", bd.path)
+        if not m:
+            continue
+        k += 1
+        rs = [e for _, _, _, e in ret_sites(bd, ctx.sym(bd))]
+        ctx.check(len(rs) == 1 and rs[0] == ("field", ("param", "self"), "flags"), "conversion-flags:%s" % m.group(1), "get_flags = self.flags", bd.where(line=bd.line), bad_detail="AnalogConversions::get_flags of %s returns %s, not the point's own flags" % (m.group(1), expr_str(rs[0])[:70] if rs else "?"))
+    if k < 2:
+        raise AnchorError("AnalogConversions::get_flags impls: %d" % k)
+    j = 0
+    for bd in prog.bodies.values():
+        m = re.search(r"StaticVariation<dnp3::app::measurement::(BinaryInput|DoubleBitBinaryInput|BinaryOutputStatus)>>::promote$", bd.path)
+        if not m:
+            continue
+        j += 1
+        gs = [g for g in ctx.gi(bd).all_guards() if g.kind == "rel" and g.op in ("Eq", "Ne") and mentions_call(g.a, r"Flags::without$") and mentions_field(g.a, "flags")]
+        ok = bool(gs) and all(const_value(prog, g.b) == 1 or mentions_const(g.b, 1) or mentions_constdef(g.b, r"Flags::ONLINE$") for g in gs)
+        ctx.check(ok, "promote:exactly-online:%s" % m.group(1), "packed only when flags (state bits aside) == ONLINE", bd.where(line=bd.line), bad_detail="promote() of %s no longer compares the flags for equality with ONLINE: a flag octet that is a subset of / different from ONLINE stays packed and arrives as ONLINE" % m.group(1))
+    if j != 3:
+        raise AnchorError("promote impls of binary types: %d" % j)
+    ib = prog.body("event::writer::HeaderState::increment")
+    for b, si, st in agg_sites(ib, r"writer::HeaderState$"):
+        e = ctx.sym(ib).rvalue_expr(st.rv)
+        ctx.check(agg_field(e, "cto") == ("field", ("param", "self"), "cto"), "HeaderState::increment:keeps-cto", "cto <- self.cto", ib.where(b.idx), bad_detail="HeaderState::increment changes the common time of an open header to %s: later events are measured from a time the master was never told" % expr_str(agg_field(e, "cto"))[:60])
+        ctx.check(agg_field(e, "count_position") == ("field", ("param", "self"), "count_position"), "HeaderState::increment:keeps-position", "count_position <- self.count_position", ib.where(b.idx))
+
+
+RULES.append(("C10.R12", "T8/T2", "plain wire flags are the point's flags; packed variations only for exactly-ONLINE flags; an open header keeps its common time", r12))
